@@ -20,19 +20,19 @@ theorem run_arch (ge : C → C → Bool) (cname : P → C → P) (A0 B0 : Tree P
     (hlive : ∀ p act, (p, act) ∈ plan → get A0 p ≠ none ∨ get B0 p ≠ none)
     (hnd : (plan.map (·.1)).Nodup) (nnc : NoNameClash ge cname A0 B0 plan) :
     ∀ (todo done : List (P × Action)) (l l' : Live P C) (n n' : Nat), plan = done ++ todo →
-      ArchInv ge cname A0 B0 m0 done l.common →
+      ArchInv ge cname A0 B0 m0 done l.common → RunInv ge cname A0 B0 done l →
       applyAllPartial ge cname (scan A0) (scan B0) todo l n = (l', n', true) →
       ArchInv ge cname A0 B0 m0 plan l'.common := by
   intro todo
   induction todo with
   | nil =>
-    intro done l l' n n' hp inv hrun
+    intro done l l' n n' hp inv _ hrun
     simp only [List.append_nil] at hp
     subst hp
     simp only [applyAllPartial, Prod.mk.injEq] at hrun
     rw [← hrun.1]; exact inv
   | cons e rest ih =>
-    intro done l l' n n' hp inv hrun
+    intro done l l' n n' hp inv rinv hrun
     obtain ⟨p, act⟩ := e
     have hmem : (p, act) ∈ plan := by rw [hp]; simp
     have hdone_mem : ∀ x, x ∈ done → x ∈ plan := fun x hx => by rw [hp]; exact List.mem_append_left _ hx
@@ -60,11 +60,19 @@ theorem run_arch (ge : C → C → Bool) (cname : P → C → P) (A0 B0 : Tree P
       obtain ⟨l1, c⟩ := r
       rw [happ] at hrun
       simp only [] at hrun
-      have hcm := apply_common ge cname _ _ l l1 p act c happ
+      obtain ⟨l1', c', happ', rinv', hxA, hyB⟩ :=
+        run_step ge cname A0 B0 z plan hact hlive hnd nnc done rest p act l hp rinv
+      have hl1 : l1' = l1 := by rw [happ] at happ'; cases happ'; rfl
+      subst hl1
+      have hdel : (act = .deleteA → get l.B p = none) ∧ (act = .deleteB → get l.A p = none) := by
+        constructor
+        · intro e; rw [e] at hs; cases hs with | delA h => rw [hyB]; exact h
+        · intro e; rw [e] at hs; cases hs with | delB h => rw [hxA]; exact h
+      have hcm := apply_common ge cname _ _ l l1' p act c happ hdel
       obtain ⟨hloc, hpath, hcopy⟩ := commonStep_lookup ge cname (scan A0) (scan B0) l.common p act
         (get A0 p) (get B0 p) (lookup_scan A0 p) (lookup_scan B0 p) hs hcc
       rw [← hcm] at hloc hpath hcopy
-      apply ih (done ++ [(p, act)]) l1 l' _ n' (by rw [hp]; simp) ?_ hrun
+      apply ih (done ++ [(p, act)]) l1' l' _ n' (by rw [hp]; simp) ?_ rinv' hrun
       refine ⟨?_, ?_, ?_⟩
       · intro q hq
         have hq1 : ¬ touched ge cname A0 B0 done q := by
